@@ -59,8 +59,7 @@ class MemHarness:
         self.injected = []
 
     def addr(self):
-        from dali.address import GearShort, DeviceShort
-        return GearShort(self.sa) if self.fam == "gear" else DeviceShort(self.sa)
+        return MI.make_addr(self.fam, self.sa, getattr(self, "aform", None))
 
     def execute(self, cmd):
         from dali import frame as F
@@ -166,6 +165,7 @@ def run_single(cfg, ch):
     row = M.by_name()[(cfg["bank"], cfg["name"])]
     cls = vals[(cfg["bank"], cfg["name"])]
     h = MemHarness(cfg["fam"], cfg["bank"], cfg["image"], cfg["last"], cfg["holes"], ch, ticks=False, faults=True, sa=cfg.get("sa"))
+    h.aform = cfg.get("aform")
     mode = cfg["mode"]
     seq = getattr(cls, mode)(h.addr())
     kind, val, n = G.run_sequence(seq, h, 600)
@@ -270,6 +270,7 @@ def run_all(cfg, ch):
     bank = getattr(importlib.import_module("dali.memory." + mod), cfg["bank"])
     h = MemHarness(cfg["fam"], cfg["bank"], cfg["image"], cfg["last"], cfg["holes"], ch, ticks=cfg["ticks"], faults=True,
                    lock_byte=cfg.get("lock_byte", 0xFF), sa=cfg.get("sa"))
+    h.aform = cfg.get("aform")
     seq = bank.read_all(h.addr(), use_latch=cfg["use_latch"])
     kind, val, n = G.run_sequence(seq, h, 900)
     return h, kind, val, n
@@ -325,11 +326,13 @@ def run_addr_sweep(res, lo, hi):
     byname = M.by_name()
     singles = [k for k in singles if k in byname] or list(byname)[:4]
     for sa in range(lo, hi):
-        for fam in ("gear", "device"):
+        for fam, aform in (("gear", None), ("device", None), ("gear", "int"), ("gear", "subclass"), ("device", "subclass")):
+            if aform is not None and sa % 16 not in (0, 5, 15):
+                continue                      # other spellings of the address: boundary and middle addresses of every block
             for bname, name in singles:
                 row = byname[(bname, name)]
                 for mode in ("read", "read_raw", "is_addressable"):
-                    cfg = dict(bank=bname, name=name, image="rnd1", last=None, holes=[], fam=fam, mode=mode, sa=sa)
+                    cfg = dict(bank=bname, name=name, image="rnd1", last=None, holes=[], fam=fam, mode=mode, sa=sa, aform=aform)
                     for ch, obs in explore(lambda c: run_single(cfg, c), bound=1 if mode == "read" else 0):
                         h, row_, kind, val, n = obs
                         judge_single(res, cfg, h, row, kind, val, mode)
@@ -337,13 +340,13 @@ def run_addr_sweep(res, lo, hi):
                         res["transitions"] += n
             for bname in ("BANK_0", "BANK_202"):
                 for latch in (True, False):
-                    cfg = dict(bank=bname, fam=fam, image="rnd1", last=None, holes=[], use_latch=latch, ticks=False, sa=sa)
+                    cfg = dict(bank=bname, fam=fam, image="rnd1", last=None, holes=[], use_latch=latch, ticks=False, sa=sa, aform=aform)
                     h, kind, val, n = run_all(cfg, None)
                     judge_all(res, cfg, h, kind, val, n)
                     res["evaluations"] += 1
                     res["transitions"] += n
     res["distinct"].add(("addr_sweep", lo))
-    sample(res, {"address_sweep": [lo, hi - 1], "families": ["gear", "device"]})
+    sample(res, {"address_sweep": [lo, hi - 1], "families": ["gear", "device"], "address_spellings": ["address object", "int (gear)", "subclass instance"]})
 
 
 def run_shard(shard):
